@@ -126,7 +126,7 @@ theorem open_epub (hv : HtmlViews) (a : Archive) (x : Docs) (mime : Nat → Opti
     (manifest : List (Str × Str)) (spine : List Str)
     (h : epubDeclared (lookup a) x = some (base, manifest, spine))
     (hm : firstMime (zipMembers a mime) = none ∨ firstMime (zipMembers a mime) = some .epub) :
-    let parts := spine.zipIdx.filterMap (epubSpecPart a base manifest)
+    let parts := (spineFirsts base manifest spine).filterMap (epubSpecPart a base manifest)
     openCountEpub a x mime = (if parts = [] then none else some parts.length) ∧
     openTextEpub hv a x mime o =
       (if parts = [] then none
